@@ -10,6 +10,8 @@ From Spl Require Export Model.Ast Base.Show.
 
 Definition str (s : string) : text := map (fun a => N.of_nat (nat_of_ascii a)) (list_ascii_of_string s).
 
+Local Open Scope nat_scope.
+
 Section Parser.
 Variable toks : list token.
 
@@ -166,7 +168,7 @@ Definition p_ident : parser ident :=
 Definition lit_value (t : token) : option N :=
   match tk t with
   | HexT (IntOk i) | IntT (IntOk i) => Some i
-  | CharT c => Some (c mod 256)            (* (c as u8).into() *)
+  | CharT c => Some (c mod 256)%N            (* (c as u8).into() *)
   | _ => None
   end.
 
@@ -209,7 +211,7 @@ Fixpoint p_variable (fuel : nat) : parser variable :=
       bind (p_pair (p_info (p_map NamedVar p_ident))
               (p_many0 f (p_info (p_preceded (p_tag (is_k LBracket))
                  (p_pair (p_expect (p_ref (p_comparison f)) (ExpectedToken s_expression))
-                         (p_expect (p_tag (is_k RBracket)) (MissingClosing 93)))))) s)
+                         (p_expect (p_tag (is_k RBracket)) (MissingClosing 93%N)))))) s)
         (fun s' r =>
            let '((v0, vinfo), accesses) := r in
            POk s' (fold_left (fun v a => ArrAccess v (fst (fst a)) (extend_range (snd a) vinfo)) accesses v0))
@@ -217,26 +219,26 @@ Fixpoint p_variable (fuel : nat) : parser variable :=
 with p_primary (fuel : nat) : parser expr :=
   match fuel with
   | O => fun _ => PFuel
-  | S f =>
+  | S f => fun s0 =>
       p_alt (p_map EInt p_intlit)
       (p_alt (p_map EVar (p_variable f))
         (* parse_bracketed *)
         (fun s =>
            bind (p_info (p_pair (p_info (p_tag (is_k LParen)))
                    (p_pair (p_expect (p_comparison f) (ExpectedToken s_expression))
-                           (p_expect (p_tag (is_k RParen)) (MissingClosing 41)))) s)
+                           (p_expect (p_tag (is_k RParen)) (MissingClosing 41%N)))) s)
              (fun s' r =>
                 let '(((_, lp_info), (e, _)), inf) := r in
                 let ep := i_e lp_info in
-                POk s' (EBrack (match e with Some x => x | None => EErr (mkinfo ep ep) end) inf))))
+                POk s' (EBrack (match e with Some x => x | None => EErr (mkinfo ep ep) end) inf)))) s0
   end
 with p_factor (fuel : nat) : parser expr :=
   match fuel with
   | O => fun _ => PFuel
-  | S f =>
+  | S f => fun s0 =>
       p_alt (p_primary f)
         (* parse_unary *)
-        (p_map (fun ei => EUn OSub (fst ei) (snd ei)) (p_info (p_preceded (p_tag (is_k Minus)) (p_factor f))))
+        (p_map (fun ei => EUn OSub (fst ei) (snd ei)) (p_info (p_preceded (p_tag (is_k Minus)) (p_factor f)))) s0
   end
 with mul_loop (fuel : nat) (s : st) (lhs : expr) : pres expr :=
   match fuel with
@@ -295,17 +297,17 @@ Definition s_colon := str ":".
 Fixpoint p_texpr (fuel : nat) : parser typeexpr :=
   match fuel with
   | O => fun _ => PFuel
-  | S f =>
+  | S f => fun s0 =>
       p_alt
         (* parse_array_type *)
         (p_map (fun r => let '((_, (_, (size, (_, (_, base))))), inf) := r in TArray size base inf)
            (p_info (p_pair (p_tag (is_k KArray))
                    (p_pair (p_expect (p_tag (is_k LBracket)) (ExpectedToken s_lbracket))
                    (p_pair (p_expect p_intlit (ExpectedToken s_intlit))
-                   (p_pair (p_expect (p_tag (is_k RBracket)) (MissingClosing 93))
+                   (p_pair (p_expect (p_tag (is_k RBracket)) (MissingClosing 93%N))
                    (p_pair (p_expect (p_tag (is_k KOf)) (ExpectedToken s_of))
                            (p_expect (p_ref (p_texpr f)) (ExpectedToken s_typeexpr)))))))))
-        (p_map TNamed p_ident)
+        (p_map TNamed p_ident) s0
   end.
 
 Definition p_typedecl (fuel : nat) : parser typedecl :=
@@ -380,7 +382,7 @@ Definition p_call (fuel : nat) : parser stmt :=
     (p_info (p_pair (p_terminated p_ident (p_tag (is_k LParen)))
             (p_pair (p_alt (p_map (fun _ => []) (p_peek_la (la_tag (fun k => match k with RParen | Semic | Eof => true | _ => false end))))
                            (p_list fuel (p_argument fuel)))
-            (p_pair (p_expect (p_tag (is_k RParen)) (MissingClosing 41))
+            (p_pair (p_expect (p_tag (is_k RParen)) (MissingClosing 41%N))
                     (p_expect (p_tag (is_k Semic)) MissingTrailingSemic))))).
 
 Definition p_assign (fuel : nat) : parser stmt :=
@@ -396,37 +398,37 @@ Definition s_statement := str "statement".
 Fixpoint p_stmt (fuel : nat) : parser stmt :=
   match fuel with
   | O => fun _ => PFuel
-  | S f =>
+  | S f => fun s0 =>
       p_alt (p_map (fun ti => SEmpty (snd ti)) (p_info (p_tag (is_k Semic))))
       (p_alt (* IfStatement *)
          (p_map (fun r => let '((_, (_, (c, (_, (t, e))))), inf) := r in
                           SIf c t (match e with Some x => x | None => None end) inf)
             (p_info (p_pair (p_tag (is_k KIf))
-                    (p_pair (p_expect (p_tag (is_k LParen)) (MissingOpening 40))
+                    (p_pair (p_expect (p_tag (is_k LParen)) (MissingOpening 40%N))
                     (p_pair (p_expect (p_ref (p_expr f)) (ExpectedToken s_expression))
-                    (p_pair (p_expect (p_tag (is_k RParen)) (MissingClosing 41))
+                    (p_pair (p_expect (p_tag (is_k RParen)) (MissingClosing 41%N))
                     (p_pair (p_expect (p_ref (p_stmt f)) (ExpectedToken s_expression))
                             (p_opt (p_preceded (p_tag (is_k KElse))
                                       (p_expect (p_ref (p_stmt f)) (ExpectedToken s_statement)))))))))))
       (p_alt (* WhileStatement *)
          (p_map (fun r => let '((_, (_, (c, (_, b)))), inf) := r in SWhile c b inf)
             (p_info (p_pair (p_tag (is_k KWhile))
-                    (p_pair (p_expect (p_tag (is_k LParen)) (MissingOpening 40))
+                    (p_pair (p_expect (p_tag (is_k LParen)) (MissingOpening 40%N))
                     (p_pair (p_expect (p_ref (p_expr f)) (ExpectedToken s_expression))
-                    (p_pair (p_expect (p_tag (is_k RParen)) (MissingClosing 41))
+                    (p_pair (p_expect (p_tag (is_k RParen)) (MissingClosing 41%N))
                             (p_expect (p_ref (p_stmt f)) (ExpectedToken s_expression))))))))
       (p_alt (* BlockStatement *)
          (p_map (fun r => SBlock (fst (fst r)) (snd r))
             (p_info (p_preceded (p_tag (is_k LCurly))
                        (p_pair (p_many0 f (p_ref (p_stmt f)))
-                               (p_expect (p_tag (is_k RCurly)) (MissingClosing 125))))))
+                               (p_expect (p_tag (is_k RCurly)) (MissingClosing 125%N))))))
       (p_alt (p_call f)
       (p_alt (p_assign f)
          (* parse_error *)
          (p_map (fun r => let '((_, ignored), inf) := r in
                           SError (info_append inf {| e_s := i_s inf; e_e := i_e inf;
                                                      e_m := EParse (UnexpectedCharacters (show_tokens ignored)) |}))
-            (p_info (p_pair p_comments (p_ignore1 la_stmt)))))))))
+            (p_info (p_pair p_comments (p_ignore1 la_stmt))))))))) s0
   end.
 
 Definition p_procdecl (fuel : nat) : parser procdecl :=
@@ -435,14 +437,14 @@ Definition p_procdecl (fuel : nat) : parser procdecl :=
     (p_info (p_pair p_comments
             (p_pair (p_tag (is_k KProc))
             (p_pair (p_expect p_ident (ExpectedToken s_identifier))
-            (p_pair (p_expect (p_tag (is_k LParen)) (MissingOpening 40))
+            (p_pair (p_expect (p_tag (is_k LParen)) (MissingOpening 40%N))
             (p_pair (p_alt (p_map (fun _ => []) (p_peek_la (la_tag (fun k => match k with RParen | LCurly | Eof => true | _ => false end))))
                            (p_list fuel (p_paramdecl fuel)))
-            (p_pair (p_expect (p_tag (is_k RParen)) (MissingClosing 41))
-            (p_pair (p_expect (p_tag (is_k LCurly)) (MissingOpening 123))
+            (p_pair (p_expect (p_tag (is_k RParen)) (MissingClosing 41%N))
+            (p_pair (p_expect (p_tag (is_k LCurly)) (MissingOpening 123%N))
             (p_pair (p_many0 fuel (p_ref (p_vardecl fuel)))
             (p_pair (p_many0 fuel (p_ref (p_stmt fuel)))
-                    (p_expect (p_tag (is_k RCurly)) (MissingClosing 125)))))))))))).
+                    (p_expect (p_tag (is_k RCurly)) (MissingClosing 125%N)))))))))))).
 
 Definition p_gdecl (fuel : nat) : parser gdecl :=
   p_alt (p_map GType (p_typedecl fuel))
